@@ -36,10 +36,16 @@ struct MapSpec {
       case O_FIND: // r0 = found, r1 = value seen
         if (e.r0) return val[k] >= 0 && val[k] == e.r1;
         return val[k] < 0;
+      case O_INDEX: // operator[]: inserts a default constructed value (0) if absent; r1 = value now associated
+        if (val[k] < 0) {
+          if (e.r1 != 0) return false;
+          val[k] = 0;
+          return true;
+        }
+        return val[k] == e.r1;
       case O_EMPLACE_OR_GET:
       case O_GET_OR_EMPLACE:
-      case O_GET_OR_EMPLACE_LAZY:
-      case O_INDEX: // r0 = inserted, r1 = value now associated
+      case O_GET_OR_EMPLACE_LAZY: // r0 = inserted, r1 = value now associated
         if (e.r0) {
           if (val[k] >= 0) return false;
           val[k] = (int)e.r1;
